@@ -32,6 +32,10 @@ CHECKS = {
    technique="TLA+ refinement: implementation-shaped chain machine TFTerms refines documented closed forms TFDoc (TLC, exact dyadic coefficients); TLC-exported behaviours interpreted in float64 and compared with the real Tearfree update; paired runs at twice the learning rate",
    text="TLC proves for every configuration of the bounded product (4 graft types x start step x skip (ignored for NONE) x ema x Nesterov x momentum decay x weight decay before/after x constant/scheduled learning rate with its own counter x statistics/root frequencies x decays) and every step that the chain as implemented (second order with fresh roots -> graft or graft-norm rescale -> [ema scale] -> trace -> weight decay -> learning rate) equals the documented closed forms. Seeded TLC simulations export behaviours; a float64 reference written from the documentation (merge, ragged blocks without padding, per-block inverse (2 x rank)-th roots with the per-block 1e-6 cut-off, frequent-directions root, RMSProp/AdaFactor graft) interprets the update terms on 10 geometries (blocked, 2x2 blocks with 1e-4/1e3 scale disparity between blocks, padded ragged block, merged rank 3, masked vector, Sketchy rank 2 relative/absolute epsilon) and is compared with the real update: Shampoo in float64 under x64 at 1e-9 (measured 2e-15), Sketchy in float32 at 1e-4 (measured 5e-7); each run is paired with one at 2 x lr and the updates must be in ratio exactly 2 (<= 2 ulp; measured 0).",
    note="Trusted: TLC; harness/reftf.py; optax's AdaFactor as the graft oracle for that type. Sketchy is compared only where the per-axis Gram rank exceeds the sketch rank (at rank exactly k the code's exact-zero tests are decided by float32 noise). ekfac_svd / linear_approx_tail / add_ggt / memory_alloc variants are not covered."),
+ "C06": dict(level="model_checking", ref="4/C06",
+   technique="TLA+ spec Shapes (tensors as index maps, one action per code step) checked exhaustively by TLC; TLC-exported cases replayed into the real shape functions with exact elementwise comparison; traces of random large shapes validated by TLC against Shapes_Trace",
+   text="TLC checks exhaustively, on a TLA+ transcription (spec/Shapes) of merge_small_dims, BlockPartitioner, the Preconditioner's shape/slot bookkeeping, Tearfree _blocks_metadata/_blockify/_deblockify and the Tearfree reshaper in which tensors are index maps (output position -> linear index of the input element, so order is part of the model), 28 invariants and one action property for every shape of rank 0..4 with dims 1..4 (thorough: rank 5 with dims <=3, rank <=3 with dims <=6, Tearfree dims up to 9) x block sizes 1..5(7) x merge limits {off,1,2,3,4,6,8,4096} x ALL/INPUT/OUTPUT: product and limit of merged shapes, split sizes (positive, <= block size, exact sum, no empty block), blocks = contiguous sub-tensors in product order and bijective, announced preconditioners aligned with the blocks, slot lists of length rank using every announced matrix exactly once, identity preconditioning and merge.partition / deblockify.blockify / unmerge.merge round trips, pad rule, documented rejections. Every exported case (23,640 quick / 158,178 thorough) is executed on the real functions with index-valued tensors and compared elementwise and exactly, including tagged diagonal preconditioners (which matrix touches which axis of which block) and the order of statistics; random larger shapes (dims to 4096, <=2^20 elements, rank <=5) are recorded step by step and validated by TLC against the module's own actions with element probes.",
+   note="Exact integer arithmetic (float64, values < 2^53), no tolerance. Trusted: TLC, jax eager execution, the closed-form label functions (tied to the index maps by the invariant ClosedForms in every exhaustive run). Tearfree/reshaper rejections: a rejection predicted by the spec and raised by an explicit ValueError is agreement; the reason text is not compared. Quick replay covers rank <=3 exhaustively and rank 4 over {2,3},{1,4}; rank 4 with dims <=4 and rank 5 are replayed in the thorough tier and reach the quick tier through the trace leg."),
 }
 
 NA_REASON = "check not built yet in this round (work in progress; see DESIGN.md section 9)"
